@@ -378,5 +378,87 @@ theorem readDocType_run (kw r : Bytes) (t : Tokenizer) (ok : Ok t) (hok : doctyp
   · show (readUntilCloseAngle _).dataS = _; rw [r3, sk.1, l1.1]
   · show (readUntilCloseAngle _).dataE = _; rw [r4, sk.1, l1.1]; omega
 
+/-- the main loop on `<!DOCTYPE…>` -/
+theorem mainLoop_doctype (T : Tokenizer) (kw r : Bytes) (ok : Ok T) (he : T.err = false) (hrs : T.rawS = T.rawE)
+    (hok : doctypeOK kw r = true) (h : Has T T.rawE ([60, 33] ++ kw ++ r ++ [62])) :
+    PieceM T (mainLoop T) .doctype ([60, 33] ++ kw ++ r ++ [62]).length ∧
+    (mainLoop T).dataS = T.rawE + 2 + kw.length + (r.takeWhile isWs).length ∧
+    (mainLoop T).dataE = T.rawE + 2 + kw.length + r.length := by
+  have hkw : patMatch kw htmlDoctypePat = true := by
+    simp only [doctypeOK, Bool.and_eq_true] at hok; exact hok.1
+  obtain ⟨k0, k1, kws, rfl, hk0⟩ : ∃ k0 k1 kws, kw = k0 :: k1 :: kws ∧ (k0 = 68 ∨ k0 = 100) := by
+    match kw, hkw with
+    | [], h => simp [patMatch, htmlDoctypePat] at h
+    | [_], h => simp [patMatch, htmlDoctypePat] at h
+    | k0 :: k1 :: kws, h =>
+      refine ⟨k0, k1, kws, rfl, ?_⟩
+      simp only [patMatch, htmlDoctypePat, Bool.and_eq_true, Bool.or_eq_true, beq_iff_eq] at h
+      exact h.1
+  have hx : [60, 33] ++ (k0 :: k1 :: kws) ++ r ++ [62] = 60 :: 33 :: ((k0 :: k1 :: kws) ++ r ++ [62]) := by simp
+  rw [hx] at h ⊢
+  obtain ⟨hml, o⟩ := mainLoop_dispatch T 33 ok he
+    (fun i hi => by have := h i (by simp at hi ⊢; omega); rw [this]; match i, hi with | 0, _ => rfl | 1, _ => rfl)
+    (by decide)
+  generalize opened2 T = S at *
+  let S' : Tokenizer := { S with dataS := S.rawE }
+  have okS' : Ok S' := ⟨o.ok.le, o.ok.panic, o.ok.hang, o.ok.utf8⟩
+  have hall : Has S' S'.rawE ((k0 :: k1 :: kws) ++ r ++ [62]) := by
+    have : Has T (T.rawE + 2) ((k0 :: k1 :: kws) ++ r ++ [62]) := (h.tail.tail).at (by omega)
+    exact (this.congr (show S'.buf = T.buf from o.buf)).at (show S.rawE = _ from o.rawE)
+  have hS1 : S'.buf[S'.rawE]? = some k0 := by
+    have := hall 0 (by simp); simpa using this
+  obtain ⟨e1, e2, e3, e4⟩ := read_known hS1 o.err
+  have hS2 : S'.readByte.1.buf[S'.readByte.1.rawE]? = some k1 := by
+    rw [e4, e2]; have := hall 1 (by simp); simpa using this
+  obtain ⟨f1, f2, f3, f4⟩ := read_known hS2 e3
+  have a1 := readByte_adv okS'
+  have a2 := readByte_adv a1.ok
+  have hur : (S'.readByte.1.readByte.1.unread 2).rawE = S.rawE := by
+    rw [unread_rawE_eq 2 (by rw [f2, e2]; omega), f2, e2]; show S.rawE + 1 + 1 - 2 = _; omega
+  have hub : (S'.readByte.1.readByte.1.unread 2).buf = S.buf := by
+    rw [unread_buf, f4, e4]
+  have au : Adv S' (S'.readByte.1.readByte.1.unread 2) :=
+    unread_adv 2 (a1.trans a2) (by rw [f2, e2]; omega)
+  have hU : Has (S'.readByte.1.readByte.1.unread 2) (S'.readByte.1.readByte.1.unread 2).rawE
+      ((k0 :: k1 :: kws) ++ r ++ [62]) := (hall.congr (hub.trans rfl)).at hur
+  obtain ⟨d2, ⟨d1, d1e⟩, d3, d4⟩ := readDocType_run (k0 :: k1 :: kws) r _ au.ok hok hU (by rw [unread_err, f3])
+  have amd := readMarkupDeclaration_adv S o.ok (by rw [o.rawE]; omega)
+  have hmd : S.readMarkupDeclaration = ((S'.readByte.1.readByte.1.unread 2).readDocType.1, TokenType.doctype) := by
+    unfold readMarkupDeclaration markupGo
+    simp only
+    rw [if_neg (by rw [e3]; exact Bool.false_ne_true), if_neg (by rw [f3]; exact Bool.false_ne_true),
+      if_neg (by rw [e1]; rcases hk0 with h | h <;> simp [h])]
+    unfold markupRest
+    simp only
+    rw [if_pos d2]
+  rw [hml]
+  unfold dispatchTag
+  simp only [htmlTagOpenLen]
+  rw [if_neg (by rw [o.rawE]; omega), if_neg (by rw [o.rawS, o.rawE, hrs]; omega)]
+  rw [if_neg (by decide : ¬ isAlpha 33 = true), if_neg (by decide : ¬ (33 == 47) = true), if_pos (by decide)]
+  try simp only []
+  rw [hmd] at amd ⊢
+  have hlen : (60 :: 33 :: ((k0 :: k1 :: kws) ++ r ++ [62])).length = 2 + ((k0 :: k1 :: kws).length + r.length + 1) := by
+    simp; omega
+  refine ⟨⟨rfl, by show (readDocType _).1.rawS = _; rw [amd.rawS]; exact o.rawS,
+    by show (readDocType _).1.rawE = _; rw [d1, hur, o.rawE, hlen]; omega,
+    d1e, by show (readDocType _).1.rawTag = _; rw [amd.rawTag]; exact o.rawTag,
+    by show (readDocType _).1.allowCdata = _; rw [amd.cdata]; exact o.cdata,
+    by show (readDocType _).1.buf = _; rw [amd.buf]; exact o.buf⟩, ?_, ?_⟩
+  · show (readDocType _).1.dataS = _; rw [d3, hur, o.rawE]
+  · show (readDocType _).1.dataE = _; rw [d4, hur, o.rawE]
+
+/-- **closed form of `next` on a doctype `<!DOCTYPE…>`** followed by anything -/
+theorem doctype_closed_form (t : Tokenizer) (kw r : Bytes) (ok : Ok t) (he : t.err = false) (htag : t.rawTag = [])
+    (hok : doctypeOK kw r = true) (h : Has t t.rawE ([60, 33] ++ kw ++ r ++ [62])) :
+    Piece t (next t) .doctype ([60, 33] ++ kw ++ r ++ [62]).length [] ∧
+    (next t).dataS = t.rawE + 2 + kw.length + (r.takeWhile isWs).length ∧
+    (next t).dataE = t.rawE + 2 + kw.length + r.length := by
+  rw [next_mainLoop t he htag]
+  have := mainLoop_doctype { ({ t with rawS := t.rawE, dataS := t.rawE, dataE := t.rawE } : Tokenizer) with
+      textIsRaw := false, convertNull := false } kw r ⟨ok.le, ok.panic, ok.hang, ok.utf8⟩ he rfl hok (h.congr rfl)
+  obtain ⟨p, d1, d2⟩ := this
+  exact ⟨⟨p.token, p.rawS, p.rawE, p.err, p.rawTag.trans htag, p.cdata, p.buf⟩, d1, d2⟩
+
 end Tokenizer
 end Rio.Html
